@@ -4,6 +4,7 @@ import EosProofs.Lemmas.CalcBasic
 import EosProofs.Lemmas.CalcRound
 import EosProofs.Lemmas.CalcOps
 import EosProofs.Lemmas.CalcWorld
+import EosProofs.Lemmas.AffectsTable
 /-! # C02 — attribute values follow the dogma modification rules exactly
 
 Property theorems only.  `Eos.Calc.calculate` / `Eos.World.valueOf` are the hand-written
@@ -581,6 +582,132 @@ theorem gather_complete (tx : ItemType) (attr : Int) (mods : List Mod)
   Eos.World.gather_complete h ha hta he hm hv hsel
 
 end world
+
+/-! ## I. Which items a modifier selects: the regenerated complete table
+
+`EosGen.AffectsTable` is regenerated on every run by `tools/gen/affects_table.py`: it builds small designed
+worlds through the public API of the real code (affector class x filter x domain x filter argument x affectee
+class x relation of the affectee to the affector, and the projected twin: projector class x filter x argument x
+target x affectee; the axes are spelled out in the header of `EosGen/AffectsTable.lean`), one modifier per world,
+and records for every item of the world whether its attribute is modified — once in the world built from scratch
+(`modified`; rests on `get_affector_specs` / `get_modifications` and the affector storages) and once after every
+item was read before the effect was started / the target was set (`modifiedInc`; additionally rests on what
+`get_local_affectee_items` / `get_projected_affectee_items` invalidate).  The recorded configuration, item types
+and modifier are read back from the live objects; `valid` is the verdict of the library's own modifier validation
+(`DogmaModifier._valid`, the test the modifier builder applies before it emits a modifier — property C19), obtained
+by calling it on the real modifier object.  A case carries all this in the form the specification's selection
+functions take; `specLocal c = affectsLocal c.cfg c.a c.m c.x c.tx` and
+`specProjected c = affectsProjected c.cfg c.a c.m c.t c.x c.tx` by definition. -/
+
+section affectsTable
+open Eos.AffectsSpec
+open EosGen.AffectsTable (localCases projectedCases localCaseCount localModifiedCount localValidCount
+  projectedCaseCount projectedModifiedCount projectedValidCount localBlocks projectedBlocks blockL01 blockP04)
+
+/-- "whose affectee filter selects that item", local modifiers: on every case of the regenerated table whose
+modifier the library's validation accepts, the specification's `affectsLocal`, evaluated on the recorded
+configuration, is what the real code did in the world built from scratch. -/
+theorem affects_table_matches_spec :
+    ∀ c ∈ localCases, c.valid = true → specLocal c = c.modified := by
+  intro c hc hv
+  have h := local_cases_ok c hc
+  simp only [localCaseOk, Bool.and_eq_true, agrees_iff, hv, Bool.not_true, Bool.or_false,
+    Bool.not_eq_true'] at h
+  simp only [h.1.2, Bool.false_eq_true, if_false] at h
+  exact h.2.2.symm
+
+/-- The projected twin (effect category target, modifier domain target, applied to the projector's target):
+on every case with a valid modifier `affectsProjected` is what the real code did in the world built from
+scratch. -/
+theorem affects_table_matches_spec_projected :
+    ∀ c ∈ projectedCases, c.valid = true → specProjected c = c.modified := by
+  intro c hc hv
+  have h := proj_cases_ok c hc
+  simp only [projCaseOk, Bool.and_eq_true, agrees_iff, hv, Bool.not_true, Bool.or_false,
+    Bool.not_eq_true'] at h
+  simp only [h.1.2, Bool.false_eq_true, if_false] at h
+  exact h.2.2.symm
+
+/-- The incremental observation (every item read first, then the effect started / the target set) is the
+specification's answer on EVERY case of either table, valid modifier or not: the items the code invalidates and
+then recalculates with the modification are exactly the selected ones. -/
+theorem affects_table_incremental_matches_spec :
+    (∀ c ∈ localCases, specLocal c = c.modifiedInc) ∧ (∀ c ∈ projectedCases, specProjected c = c.modifiedInc) := by
+  refine ⟨fun c hc => ?_, fun c hc => ?_⟩
+  · have h := local_cases_ok c hc
+    simp only [localCaseOk, Bool.and_eq_true, agrees_iff] at h
+    exact h.2.1.symm
+  · have h := proj_cases_ok c hc
+    simp only [projCaseOk, Bool.and_eq_true, agrees_iff] at h
+    exact h.2.1.symm
+
+/-- Outside the domain — modifiers the library's own validation rejects (a group / skill filter without
+argument, an en-masse filter with domain `other`, `owner_skillrq` with a domain other than `character`; the
+modifier builder never emits them): in a world built from scratch the real code still does what the
+specification says, except for a `domain_group` modifier without group argument, which selects exactly the
+group-less items of the (resolved) domain — of the affector's fit for a local modifier, aboard the targeted ship
+for a projected one.  (Pinned so that a change of the code there is noticed too; not a property clause.) -/
+theorem affects_table_invalid_rows_observed :
+    (∀ c ∈ localCases, c.valid = false →
+      c.modified = if groupNoneRow c.m then observedGroupNoneLocal c else specLocal c) ∧
+    (∀ c ∈ projectedCases, c.valid = false →
+      c.modified = if groupNoneRow c.m then observedGroupNoneProj c else specProjected c) := by
+  refine ⟨fun c hc _ => ?_, fun c hc _ => ?_⟩
+  · have h := local_cases_ok c hc
+    simp only [localCaseOk, Bool.and_eq_true, agrees_iff] at h
+    have h2 := h.2.2
+    split at h2 <;> simp_all
+  · have h := proj_cases_ok c hc
+    simp only [projCaseOk, Bool.and_eq_true, agrees_iff] at h
+    have h2 := h.2.2
+    split at h2 <;> simp_all
+
+/-- Every `domain_group` modifier without group argument in the table is one the validation rejects. -/
+theorem affects_table_group_none_invalid :
+    (∀ c ∈ localCases, groupNoneRow c.m = true → c.valid = false) ∧
+    (∀ c ∈ projectedCases, groupNoneRow c.m = true → c.valid = false) := by
+  refine ⟨fun c hc hg => ?_, fun c hc hg => ?_⟩
+  · have h := local_cases_ok c hc
+    simp only [localCaseOk, Bool.and_eq_true, hg, Bool.not_true, Bool.false_or, Bool.not_eq_true'] at h
+    exact h.1.2
+  · have h := proj_cases_ok c hc
+    simp only [projCaseOk, Bool.and_eq_true, hg, Bool.not_true, Bool.false_or, Bool.not_eq_true'] at h
+    exact h.1.2
+
+/-- The validity hypothesis of `affects_table_matches_spec` cannot be dropped: outside the domain there are
+recorded cases (of either table) where the real code leaves the specification. -/
+theorem affects_table_invalid_rows_disagree :
+    (∃ c ∈ localCases, c.valid = false ∧ specLocal c ≠ c.modified) ∧
+    (∃ c ∈ projectedCases, c.valid = false ∧ specProjected c ≠ c.modified) := by
+  constructor
+  · obtain ⟨c, hc, h⟩ := List.any_eq_true.1 local_disagreement
+    exact ⟨c, mem_localCases (by simp [localBlocks]) hc, by simpa using h⟩
+  · obtain ⟨c, hc, h⟩ := List.any_eq_true.1 proj_disagreement
+    exact ⟨c, mem_projectedCases (by simp [projectedBlocks]) hc, by simpa using h⟩
+
+/-- The cases are well-formed observations: the type recorded next to an item is that item's type. -/
+theorem affects_table_types_aligned :
+    (∀ c ∈ localCases, c.x.typeId = c.tx.id) ∧ (∀ c ∈ projectedCases, c.x.typeId = c.tx.id) := by
+  refine ⟨fun c hc => ?_, fun c hc => ?_⟩
+  · have h := local_cases_ok c hc
+    simp only [localCaseOk, Bool.and_eq_true, beq_iff_eq] at h
+    exact h.1.1
+  · have h := proj_cases_ok c hc
+    simp only [projCaseOk, Bool.and_eq_true, beq_iff_eq] at h
+    exact h.1.1
+
+/-- Nothing was lost between the generator and the theorems: the tables have exactly as many cases, as many
+"modified" cases and as many cases with a valid modifier (so the statements above are not vacuous) as the
+generator counted observations. -/
+theorem affects_table_complete :
+    localCases.length = localCaseCount ∧ localCases.countP (·.modified) = localModifiedCount ∧
+    localCases.countP (·.valid) = localValidCount ∧
+    projectedCases.length = projectedCaseCount ∧
+    projectedCases.countP (·.modified) = projectedModifiedCount ∧
+    projectedCases.countP (·.valid) = projectedValidCount :=
+  ⟨local_counts.1, local_counts.2.1, local_counts.2.2, proj_counts.1, proj_counts.2.1, proj_counts.2.2⟩
+
+end affectsTable
 
 /-! ## Non-vacuity
 
